@@ -9,13 +9,15 @@
 (*   labels     every label up to 2 characters over a punctuation alphabet as   *)
 (*              taxon label, internal label or root label x every consistent    *)
 (*              option pair x schema                                            *)
+(*   keywords   labels that are whole NEXUS keywords (END, end, ENDBLOCK, TREE, ..)*)
+(*   history    namespaces with a history: accession numbers with holes / reversed*)
 (*   singles    single-node trees whose only label is one punctuation character,*)
 (*              lists of 1..MaxSingles, every rooting state, with/without weights*)
 (*   lists      tree lists of length 0..MaxList x rooting states x tree weights *)
 (*              x suppress_rooting with the matching reader rooting             *)
 (* Design selects the reference design or one as-shipped rule (AsShipped cfgs).  *)
 EXTENDS NewickRoundTrip
-CONSTANTS MaxNodes, MaxLeaves, MaxList, SymLeaves, MaxSingles, Design, Domains
+CONSTANTS MaxNodes, MaxLeaves, MaxList, SymLeaves, MaxSingles, Design, Domains, AccReuse
 VARIABLE inst
 
 D == CASE Design = "reference" -> NwReference
@@ -26,9 +28,10 @@ D == CASE Design = "reference" -> NwReference
        [] Design = "len" -> [NwReference EXCEPT !.missingLen = "all"]
        [] Design = "empty" -> [NwReference EXCEPT !.emptyOk = FALSE]
        [] Design = "nodouble" -> [NwReference EXCEPT !.dbl = FALSE]
+       [] Design = "kwstop" -> [NwReference EXCEPT !.kwStop = TRUE]
 
 O0 == [uu |-> FALSE, ps |-> FALSE, pu |-> FALSE, translate |-> FALSE, suprooting |-> FALSE, rrooting |-> "",
-       weights |-> FALSE, inttaxa |-> FALSE]
+       weights |-> FALSE, inttaxa |-> FALSE, acc |-> <<1, 2, 3, 4, 5, 6, 7, 8, 9>>]
 Schemas == {"newick", "nexus", "nexml"}
 Plain(i) == <<"a", NwDigits[i]>>
 IsInt(p, x) == \E i \in 1..Len(p) : p[i] = x
@@ -99,7 +102,32 @@ InitSingles ==
                   trees |-> [i \in 1..m |-> Single(<<c>>, rs[i], IF wt THEN "w2" ELSE "")],
                   o |-> [O0 EXCEPT !.weights = wt, !.translate = (cfg = "nexus+t")]]
 
-Init == \/ "singles" \in Domains /\ InitSingles
+\* keyword-like labels: the label is a whole NEXUS keyword, as taxon label at the first / middle / last position of
+\* the namespace or as the root label; a later taxon is unused; the tree lists its leaves against the namespace order
+Keywords == {<<"K_END">>, <<"K_end">>, <<"K_ENDBLOCK">>, <<"K_BEGIN">>, <<"K_TREE">>, <<"K_TREES">>, <<"K_TAXLABELS">>, <<"K_TRANSLATE">>}
+InitKeywords ==
+    \E kw \in Keywords, pos \in 0..3, cfg \in {"newick", "nexus", "nexus+t", "nexml"} :
+       inst = [dom |-> "keywords", schema |-> IF cfg = "nexus+t" THEN "nexus" ELSE cfg,
+               ns |-> [i \in 1..4 |-> IF i = pos THEN kw ELSE Plain(i)],
+               trees |-> <<[g |-> MkG(Star(3), <<3, 2, 1>>, [x \in 1..4 |-> IF x = 1 /\ pos = 0 THEN kw ELSE <<>>],
+                                      [x \in 1..4 |-> IF x = 2 THEN "n1" ELSE ""], 1), w |-> ""]>>,
+               o |-> [O0 EXCEPT !.translate = (cfg = "nexus+t")]]
+\* namespace histories: accession numbers with holes (taxa removed, others added later), descending (namespace
+\* reversed), an unused taxon; every leaf order.  AccReuse = TRUE admits a namespace that hands an accession number
+\* out twice (must break the TRANSLATE round trip: ReusedAccession cfg)
+AccSeqs == IF AccReuse THEN [1..3 -> 1..3]
+           ELSE {q \in [1..3 -> 1..5] : (\A i \in 1..2 : q[i] < q[i + 1]) \/ (\A i \in 1..2 : q[i] > q[i + 1])}
+InitHistory ==
+    \E acc \in AccSeqs, k \in 2..3, cfg \in {"newick", "nexus", "nexus+t", "nexml"} :
+      \E pi \in InjSeqs(1..3, k) :
+       inst = [dom |-> "history", schema |-> IF cfg = "nexus+t" THEN "nexus" ELSE cfg,
+               ns |-> <<Plain(1), Plain(2), Plain(3)>>,
+               trees |-> <<[g |-> MkG(Star(k), pi, [x \in 1..(k + 1) |-> <<>>], [x \in 1..(k + 1) |-> ""], 0), w |-> ""]>>,
+               o |-> [O0 EXCEPT !.translate = (cfg = "nexus+t"), !.acc = acc]]
+
+Init == \/ "keywords" \in Domains /\ InitKeywords
+        \/ "history" \in Domains /\ InitHistory
+        \/ "singles" \in Domains /\ InitSingles
         \/ "lists" \in Domains /\ InitLists
         \/ "labels" \in Domains /\ InitLabels
         \/ "symbols" \in Domains /\ InitSymbols
@@ -111,6 +139,7 @@ AllLabels == SeqToSet(inst.ns) \cup UNION {{t.g.lab[x] : x \in {y \in 1..t.g.n :
 \* the instances stay inside the property's side conditions and use consistent option pairs
 DomainWithinProperty == /\ NwLabelsOk(SeqToSet(inst.ns)) /\ (\A l \in AllLabels : TkSideOk(l))
                         /\ NwOptsOk(inst)
+                        /\ \A i, j \in 1..Len(inst.ns) : i # j => inst.o.acc[i] # inst.o.acc[j]      \* accession numbers are unique
                         /\ \A t \in SeqToSet(inst.trees) : NwTreeOk(t, inst.o, inst.schema)
 \* C02 on the model: read(write(x)) = x
 RoundTripHolds == NwRoundTripOK(inst, D)
